@@ -10,7 +10,7 @@ open Verif.PingProto
 inductive POp | ping | clone | drop
   deriving DecidableEq, Repr
 
-inductive PMid | none | pingBefore | pingAfter | dropBefore | dropAfter
+inductive PMid | none | pingBefore | pingAfter | pingReturned | dropBefore | dropAfter
   deriving DecidableEq, Repr
 
 structure PThread where
@@ -19,7 +19,7 @@ structure PThread where
   handles : Nat := 1
   deriving Repr
 
-inductive LMid | none | atPoll | atPolled (ev : Bool) | atDrain
+inductive LMid | none | atPoll | atPolled (ev : Bool) | atDrain | atCb
   deriving DecidableEq, Repr
 
 structure World where
@@ -42,7 +42,8 @@ def pingerStep (w : World) (p : PThread) : Nat → World × PThread × String
     match p.mid with
     | .pingBefore => (act w .pingWrite, { p with mid := .pingAfter }, "efd.written")
     | .dropBefore => (act w .dropWrite, { p with mid := .dropAfter }, "efd.written")
-    | .pingAfter | .dropAfter => pingerStep w { p with mid := .none } fuel
+    | .pingAfter => (w, { p with mid := .pingReturned }, "ping.returned")
+    | .pingReturned | .dropAfter => pingerStep w { p with mid := .none } fuel
     | .none =>
       match p.ops with
       | [] => (w, p, "done")
@@ -76,8 +77,14 @@ def loopStep (w : World) : Nat → World × String
       if ev then ({ w with lmid := .atDrain }, "efd.drain")
       else loopStep { w with lmid := .none } fuel
     | .atDrain =>
-      let w := act (act (act w .loopDrain) .loopCallback) .loopPost
-      loopStep { w with lmid := .none } fuel
+      let w := act w .loopDrain
+      if w.s.lc ≥ 2 then
+        -- the callback starts (it is counted) and the thread parks inside it
+        ({ (act w .loopCallback) with lmid := .atCb }, "ping.cb")
+      else
+        let w := act (act w .loopCallback) .loopPost
+        loopStep { w with lmid := .none } fuel
+    | .atCb => loopStep { (act w .loopPost) with lmid := .none } fuel
 
 def snapshot (w : World) : String := s!"counter={w.s.counter} cbs={w.s.cbs} reg={w.s.reg}"
 
